@@ -183,6 +183,9 @@ ASSUMPTIONS = {
         "typed lookups (FindMessageByName / FindExtensionByName) must succeed exactly for visible elements of that kind and "
         "answer NotFound for invisible names",
         "all files of a graph are compiled in one Compile call (one symbol pool)",
+        "the same queries are also run against files produced by parser.Parse + linker.Link bottom-up with ALL previously "
+        "linked files passed as dependencies (a superset of the imports, as direct users of linker.Link do); the superset "
+        "must not change any answer (classes visible:superset:...)",
     ],
     "C19": [
         "ProtoLang.tla ImportVerdict is the oracle and the removal criterion is executed on the real compiler for every "
